@@ -101,7 +101,8 @@ type CreateCase struct {
 	Key    string     `json:"key"`
 	Prev   int        `json:"prev"` // size of a previous value of the key (-1: none)
 	NoRoom bool       `json:"no_room,omitempty"`
-	Caps   []RootSpec `json:"caps,omitempty"` // root capacities installed after the previous value was stored
+	Caps   []RootSpec `json:"caps,omitempty"`   // root capacities installed after the previous value was stored
+	Client string     `json:"client,omitempty"` // "" = inline; simgrpc = the file is created through the external client (stream writer, delivery service, stream reader)
 }
 
 var (
